@@ -98,14 +98,21 @@ func (r *Run) Inflight(s string) {
 
 const WatchdogSeconds = 20
 
+// Tick tells the watchdog that the in-flight case is making progress (one more
+// execution of a multi-execution case finished).
+func Tick() { ticks.Add(1) }
+
+var ticks atomic.Int64
+
 func (r *Run) watchdog() {
 	var last *string
+	var lastTick int64
 	var since time.Time
 	for {
 		time.Sleep(500 * time.Millisecond)
 		cur := r.inflight.Load()
-		if cur != last {
-			last, since = cur, time.Now()
+		if t := ticks.Load(); cur != last || t != lastTick {
+			last, lastTick, since = cur, t, time.Now()
 			continue
 		}
 		if cur != nil && time.Since(since) > WatchdogSeconds*time.Second {
